@@ -454,6 +454,7 @@ int _vnadata_load_npd(vnadata_internal_t *vdip, FILE *fp, const char *filename)
     int parameter_line = -1;
     bool fz0 = false;
     double complex *z0_vector = NULL;
+    int z0_ports = -1;
     const vnadata_format_descriptor_t *best_vfdp = NULL;
 
     (void)memset((void *)&nss, 0, sizeof(nss));
@@ -618,6 +619,14 @@ int _vnadata_load_npd(vnadata_internal_t *vdip, FILE *fp, const char *filename)
 
 
 	case T_KZ0:
+	    if (nss.nss_field_count == 2 &&
+		    strcasecmp(FIELD(&nss, 1), "PER-FREQUENCY") == 0) {
+		fz0 = true;
+		if (scan_line(&nss) == -1) {
+		    goto out;
+		}
+		continue;
+	    }
 	    if (ports < 0) {	/* compatibility with earlier code */
 		if (rows >= 0 && columns >= 0) {
 		    if (rows != columns) {
@@ -629,36 +638,43 @@ int _vnadata_load_npd(vnadata_internal_t *vdip, FILE *fp, const char *filename)
 		    ports = columns;
 		}
 	    }
-	    if (ports < 0) {
-		_vnadata_error(vdip, VNAERR_SYNTAX, "%s (line %d) error: "
-			"ports must come before #:z0",
-			nss.nss_filename, nss.nss_line);
-		goto out;
-	    }
-	    if (nss.nss_field_count == 2 &&
-		    strcasecmp(FIELD(&nss, 1), "PER-FREQUENCY") == 0) {
-		fz0 = true;
-		if (scan_line(&nss) == -1) {
+	    {
+		int count = ports;
+
+		/*
+		 * If #:z0 comes before #:ports, take the number of
+		 * ports from the number of values; they're compared
+		 * when the header is complete.
+		 */
+		if (count < 0) {
+		    if (nss.nss_field_count < 3 ||
+			    nss.nss_field_count % 2 != 1) {
+			_vnadata_error(vdip, VNAERR_SYNTAX,
+				"%s (line %d) error: expected two fields "
+				"per port after z0",
+				nss.nss_filename, nss.nss_line);
+			goto out;
+		    }
+		    count = (nss.nss_field_count - 1) / 2;
+		}
+		if (nss.nss_field_count != 1 + 2 * (size_t)count ||
+			(z0_ports != -1 && z0_ports != count)) {
+		    _vnadata_error(vdip, VNAERR_SYNTAX,
+			    "%s (line %d) error: expected %d fields after z0",
+			    nss.nss_filename, nss.nss_line, 2 * count);
 		    goto out;
 		}
-		continue;
-	    }
-	    if (nss.nss_field_count != 1 + 2 * ports) {
-		_vnadata_error(vdip, VNAERR_SYNTAX, "%s (line %d) error: "
-			"expected %d fields after z0",
-			nss.nss_filename, nss.nss_line,
-			2 * ports);
-		goto out;
+		z0_ports = count;
 	    }
 	    if (z0_vector == NULL) {
-		if ((z0_vector = calloc(ports,
+		if ((z0_vector = calloc(z0_ports,
 				sizeof(double complex))) == NULL) {
 		    _vnadata_error(vdip, VNAERR_SYSTEM,
 			    "calloc: %s", strerror(errno));
 		    goto out;
 		}
 	    }
-	    for (int port = 0; port < ports; ++port) {
+	    for (int port = 0; port < z0_ports; ++port) {
 		double re = 0.0, im = 0.0;
 		char *cp;
 
@@ -709,6 +725,12 @@ int _vnadata_load_npd(vnadata_internal_t *vdip, FILE *fp, const char *filename)
 	_vnadata_error(vdip, VNAERR_SYNTAX, "%s (line %d) error: "
 		"required keyword #:ports missing",
 		nss.nss_filename, nss.nss_line);
+	goto out;
+    }
+    if (z0_ports != -1 && z0_ports != ports) {
+	_vnadata_error(vdip, VNAERR_SYNTAX, "%s (line %d) error: "
+		"expected %d fields after z0",
+		nss.nss_filename, nss.nss_line, 2 * ports);
 	goto out;
     }
     if (frequencies < 0) {
